@@ -127,8 +127,11 @@ def main():
             only_native_code = diff == ['cxx'] and '-python-native' in opts
             reorder = False
             if only_native_code:
-                a = sorted(open(base[1]['cxx'], 'rb').read().replace(b'/baseline/', b'/<RUN>/').splitlines())
-                bb = sorted(open(files['cxx'], 'rb').read().replace(('/' + tag + '/').encode(), b'/<RUN>/').splitlines())
+                def lines_of(data):
+                    # a docstring is a run of "..." lines closed by ");" on whichever line comes last: the terminator is not part of the line's identity
+                    return sorted(re.sub(rb'^(\s*".*")\);$', rb'\1', ln) for ln in data.splitlines())
+                a = lines_of(open(base[1]['cxx'], 'rb').read().replace(b'/baseline/', b'/<RUN>/'))
+                bb = lines_of(open(files['cxx'], 'rb').read().replace(('/' + tag + '/').encode(), b'/<RUN>/'))
                 reorder = (a == bb)
             if only_native_code and reorder:
                 ck.spec_failure('pointer-order:python-native', '-python-native code differs between two runs (%s): overloads the comparator does not separate are emitted in heap-address order' % label, rp)
